@@ -674,8 +674,13 @@ func (r *Runner) handleRace(store queue.Store, dump Dumper, clk *Clock, book *le
 		}
 		doneA := make(chan res, 1)
 		doneB := make(chan res, 1)
+		bookA, bookB := book, book
+		if second.Op == "Dequeue" {
+			// both calls record the leases they are given: private books, merged afterwards
+			bookA, bookB = NewLeaseBook(), NewLeaseBook()
+		}
 		go func() {
-			ev, err := execOp(store, clk, book, second)
+			ev, err := execOp(store, clk, bookA, second)
 			doneA <- res{ev, err}
 		}()
 		// the lease call reads what it reads without the lock, then waits for it; SQLite's busy handler polls at growing
@@ -687,7 +692,7 @@ func (r *Runner) handleRace(store queue.Store, dump Dumper, clk *Clock, book *le
 		}
 		time.Sleep(wait)
 		go func() {
-			ev, err := execOp(storeB, clk, book, first)
+			ev, err := execOp(storeB, clk, bookB, first)
 			doneB <- res{ev, err}
 		}()
 		time.Sleep(4 * time.Millisecond)
@@ -710,6 +715,17 @@ func (r *Runner) handleRace(store queue.Store, dump Dumper, clk *Clock, book *le
 			return ra.err
 		}
 		ev1, ev2 = rb.ev, ra.ev
+		if second.Op == "Dequeue" {
+			for _, bk := range []*leaseBook{bookB, bookA} {
+				for id, ls := range bk.epochs {
+					book.epochs[id] = append(book.epochs[id], ls...)
+				}
+			}
+		}
+	}
+	if second.Op == "Dequeue" {
+		ev := Event{"ev": "HandleDeq", "a": map[string]any{"first": ev1["a"], "second": ev2["a"]}, "r": map[string]any{"first": ev1["r"], "second": ev2["r"]}}
+		return r.EmitWithPost(ev, dump, clk)
 	}
 	ev := Event{"ev": "HandleRace", "a": map[string]any{"first": ev1["a"], "second": ev2["a"], "second_ev": ev2["ev"]},
 		"r": map[string]any{"first": ev1["r"], "second": ev2["r"]}}
